@@ -123,7 +123,17 @@ def targeted(rng):
     return spec, [], dict(policy=rng.choice(["random", "lifo", "fifo"]))
 
 
-TEMPLATES_C02 = [fanout, targeted, waitfan]     # props/C02.py adds failflow (defined below)
+def sendwait(rng):
+    """waitfan whose waiting step SENDS a note to another step immediately before it suspends in wait_for_event (no await in
+    between), on the first pass and again on every replay: every one of those sends is an event of its own and is delivered"""
+    spec, ext, opts = waitfan(rng)
+    spec["steps"]["b_wait"]["script"] = [("send", T3, 1, None)] + spec["steps"]["b_wait"]["script"]
+    spec["steps"]["b_wait"]["returns"] = [T2, T3]
+    spec["steps"]["d_note"] = dict(accepts=[T3], returns=[type(None)], num_workers=rng.choice([1, 2]), script=[("return", None)])
+    return spec, ext, opts
+
+
+TEMPLATES_C02 = [fanout, targeted, waitfan, sendwait]     # props/C02.py adds failflow (defined below)
 
 
 def irflow(rng):
@@ -227,18 +237,21 @@ def failflow(rng):
 
     def hscript():
         x = rng.random()
-        if x < 0.5:
+        if x < 0.3:
             return [("return", T1)], "reenter"
+        if x < 0.5:
+            # (the handler re-dispatches the work with ctx.send_event instead of returning it: the same lineage)
+            return [("send", T1, 1, None), ("return", None)], "reenter"
         if x < 0.8:
             return [("return", StopEvent)], "recover"
         return [("raise", "key", "hboom")], "raise"
     if layout in ("scoped", "both"):
         sc, beh = hscript()
         handlers["h_scoped"] = dict(for_steps=rng.choice([["b_work"], ["b_work", "c_next"], ["c_next"]]),
-                                    max_recoveries=rng.choice([1, 2, 3]), returns=[T1, StopEvent], script=sc, behaviour=beh)
+                                    max_recoveries=rng.choice([1, 2, 3]), returns=[T1, StopEvent, type(None)], script=sc, behaviour=beh)
     if layout in ("wild", "both"):
         sc, beh = hscript()
-        handlers["h_wild"] = dict(for_steps=None, max_recoveries=rng.choice([1, 2, 3]), returns=[T1, StopEvent],
+        handlers["h_wild"] = dict(for_steps=None, max_recoveries=rng.choice([1, 2, 3]), returns=[T1, StopEvent, type(None)],
                                   script=sc, behaviour=beh)
     spec = dict(steps=steps, handlers=handlers, disable_validation=rng.random() < 0.5)
     return spec, [], dict(policy="random")
